@@ -102,21 +102,53 @@ RANDOM = {'quick': 12000, 'thorough': 600000}   # free random stream
 PD_EXTRA = {'quick': 1200, 'thorough': 40000}   # PdiffIndex Current-as-list / single-line 3-column cases
 HIST = {'quick': 6000, 'thorough': 200000}      # histories (one object, 2..4 dumps with mutations between)
 
-# ~50% of what the unrepaired tree measures (there a third of the dumps raise, so M.reparse / M.align are
-# at their lowest; a tree where dump() works measures more)
-FLOORS = {'quick': {'nontrivial': 7000,
-                    'monitors': {'M': 9000, 'M.parse': 4500, 'M.dump': 9000, 'M.reparse': 5600, 'M.align': 10000},
-                    'counters': {'class:Dsc': 1300, 'class:Changes': 1300, 'class:BuildInfo': 1300,
-                                 'class:PdiffIndex': 2500, 'class:Release': 2600, 'behavior:dak': 1300,
-                                 'behavior:apt-ftparchive': 1300, 'mode:text': 4500, 'mode:build': 4500,
-                                 'form:single': 1100, 'form:multi': 12000, 'has-absent-field': 8000}},
-          'thorough': {'nontrivial': 240000,
-                       'monitors': {'M': 330000, 'M.parse': 160000, 'M.dump': 330000, 'M.reparse': 220000,
-                                    'M.align': 440000},
-                       'counters': {'class:Dsc': 52000, 'class:Changes': 52000, 'class:BuildInfo': 52000,
-                                    'class:PdiffIndex': 70000, 'class:Release': 100000, 'behavior:dak': 52000,
-                                    'behavior:apt-ftparchive': 52000, 'mode:text': 160000, 'mode:build': 160000,
-                                    'form:single': 43000, 'form:multi': 460000, 'has-absent-field': 290000}}}
+# ~50% of what the unchanged (repaired) tree measures: quick = minimum over VERIF_SEED 0..3, thorough = seed 0.
+# has-absent-field is counted per judged dump.  The hist:* / pdiff:* floors make a run that never drives the
+# history / PdiffIndex-form classes INCONCLUSIVE instead of held.
+FLOORS = {'quick': {'nontrivial': 10000,
+                    'monitors': {'M': 12700, 'M.parse': 6600, 'M.dump': 18000, 'M.reparse': 18000, 'M.align': 133000,
+                                 'M.hist': 8300},
+                    'counters': {'class:Dsc': 1500, 'class:Changes': 1550, 'class:BuildInfo': 1500,
+                                 'class:PdiffIndex': 4000, 'class:Release': 4000, 'behavior:dak': 1950,
+                                 'behavior:apt-ftparchive': 1950, 'mode:text': 6600, 'mode:build': 6100,
+                                 'form:single': 3100, 'form:multi': 21000, 'has-absent-field': 15000,
+                                 'kind:single-dump': 9700, 'kind:history': 3000, 'hist:redump': 5300,
+                                 'hist:redump-unchanged': 300,
+                                 'hist:dump-after:behavior': 1000, 'hist:dump-after:reassign': 1240,
+                                 'hist:dump-after:add-absent': 800, 'hist:dump-after:delete': 840,
+                                 'hist:dump-after:append': 1250, 'hist:dump-after:insert': 430,
+                                 'hist:dump-after:pop': 1240, 'hist:dump-after:set-size': 1270,
+                                 'hist:dump-after:set-token': 420,
+                                 'hist:dump-after-switch-to:apt-ftparchive': 490, 'hist:dump-after-switch-to:dak': 490,
+                                 'hist:dump-after-in-place-edit:built': 1700, 'hist:dump-after-in-place-edit:parsed': 2050,
+                                 'hist:redump-width-changed:PdiffIndex': 1000, 'hist:redump-width-changed:Release': 970,
+                                 'hist:redump-width-grew': 1250, 'hist:redump-width-shrank': 1120,
+                                 'pdiff:current-list-mixed-sizes:built': 1480, 'pdiff:current-list-mixed-sizes:parsed': 2000,
+                                 'pdiff:parsed-single-line-3col': 1840}},
+          'thorough': {'nontrivial': 330000,
+                       'monitors': {'M': 450000, 'M.parse': 235000, 'M.dump': 630000, 'M.reparse': 630000,
+                                    'M.align': 4600000, 'M.hist': 280000},
+                       'counters': {'class:Dsc': 60000, 'class:Changes': 60000, 'class:BuildInfo': 60000,
+                                    'class:PdiffIndex': 120000, 'class:Release': 150000, 'behavior:dak': 75000,
+                                    'behavior:apt-ftparchive': 75000, 'mode:text': 235000, 'mode:build': 215000,
+                                    'form:single': 108000, 'form:multi': 740000, 'has-absent-field': 510000,
+                                    'kind:single-dump': 350000, 'kind:history': 100000, 'hist:redump': 180000,
+                                    'hist:redump-unchanged': 10000,
+                                    'hist:dump-after:behavior': 33000, 'hist:dump-after:reassign': 42000,
+                                    'hist:dump-after:add-absent': 28000, 'hist:dump-after:delete': 29000,
+                                    'hist:dump-after:append': 42000, 'hist:dump-after:insert': 14500,
+                                    'hist:dump-after:pop': 41000, 'hist:dump-after:set-size': 42000,
+                                    'hist:dump-after:set-token': 14500,
+                                    'hist:dump-after-switch-to:apt-ftparchive': 16500,
+                                    'hist:dump-after-switch-to:dak': 16500,
+                                    'hist:dump-after-in-place-edit:built': 58000,
+                                    'hist:dump-after-in-place-edit:parsed': 69000,
+                                    'hist:redump-width-changed:PdiffIndex': 34000,
+                                    'hist:redump-width-changed:Release': 33000,
+                                    'hist:redump-width-grew': 42000, 'hist:redump-width-shrank': 38000,
+                                    'pdiff:current-list-mixed-sizes:built': 50000,
+                                    'pdiff:current-list-mixed-sizes:parsed': 68000,
+                                    'pdiff:parsed-single-line-3col': 62000}}}
 
 HOSTILE_ATOMS = ['#', ':', '-', '-----BEGIN', 'PGP', '=', '\\', 'Files:', '.', '..', '#x', 'a:b', '::', '-----',
                  '%', '"', "'", '@', ',', ';', '(', ')', '[', ']', '{', '}', '<', '>', '|', '&', '*', '!', '?', '$',
